@@ -70,6 +70,19 @@ CHECKS = {
         note="Real arithmetic, unit quaternions; 1-3 sensors, pixel layouts from a fixed list, path lengths <=3; median/std style reductions not decided.",
         design="3/C04",
     ),
+    "C05": dict(
+        engine="E2",
+        technique="symbolic execution of the real getBH_level2 (source flattening, collection slice summation, sumup) with uninterpreted "
+        "per-leaf fields, and of the real BHJM_* wrappers with the excitation l*J1+J2 vs J1, J2, over z3 terms; sums and linearity "
+        "discharged as SMT obligations per feasible path",
+        text="Bounded symbolic model checking: (a) for source lists mixing bare sources, collections of different sizes, nesting and an "
+        "object reachable twice, each entry equals the sum of its leaves' fields and sumup the sum of entries, for all poses; (b) "
+        "B and H of Cuboid, Sphere, Triangle, Tetrahedron, Dipole, Circle, Polyline are linear in the excitation for all reals on "
+        "every mask path (zero-excitation special cases included); Cylinder is positively homogeneous.",
+        note="Real arithmetic; committed scene list (<=4 leaves, nesting depth 2); tetrahedron/triangle vertices and polyline endpoints fixed "
+        "rationals; atan2 homogeneity lemma instances for the Cylinder; CylinderSegment and TriangularMesh linearity not decided.",
+        design="3/C05",
+    ),
 }
 
 NOT_APPLICABLE = {
